@@ -123,6 +123,23 @@ def execute(job):
                 o["rpy_x"] = [xs(axarr2[i].lines[0].get_xdata()) for i in range(3)]
                 o["rpy_y"] = [[int(round(v)) if abs(v - round(v)) < 1e-6 else BAD for v in np.asarray(axarr2[i].lines[0].get_ydata(), dtype=float)]
                               for i in range(3)]
+                # the same object changed afterwards and plotted again: the angles shown are those of the CURRENT poses
+                g = geom.O24[8]
+                tr.transform(geom.se3(geom.o24_matrix(g), [0.0, 0.0, 0.0]))
+                fig2b, axarr2b = plt.subplots(3)
+                plot.traj_rpy(axarr2b, tr, start_timestamp=start)
+                o["rpy2_g"] = geom.ROT_INDEX[g]
+                o["rpy2_y"] = [[int(round(v)) if abs(v - round(v)) < 1e-6 else BAD for v in np.asarray(axarr2b[i].lines[0].get_ydata(), dtype=float)]
+                               for i in range(3)]
+                tr.transform(geom.se3(geom.o24_matrix(g).T, [0.0, 0.0, 0.0]))       # back
+                trp = copy.deepcopy(tr)
+                from evo.core.trajectory import Plane
+                fig2p, axarr2p = plt.subplots(3)
+                plot.traj_rpy(axarr2p, trp, start_timestamp=start)         # plotted once before the projection as well
+                trp.project(Plane.XY)
+                fig2c, axarr2c = plt.subplots(3)
+                plot.traj_rpy(axarr2c, trp, start_timestamp=start)
+                o["rpy3_flat"] = bool(all(np.max(np.abs(np.asarray(axarr2c[i].lines[0].get_ydata(), dtype=float))) < 1e-6 for i in (0, 1)))
                 o["speed_x"], o["speed_num"], o["speed_den"] = [], [], []
                 if stamps:
                     fig3 = plt.figure(figsize=(2, 2))
